@@ -113,7 +113,7 @@ Proof.
     unfold in_range. destruct b64ok, matok, fl, ((0 <=? idx) && (idx <? nch)), (pcols =? ns); reflexivity.
   - (* write control *)
     destruct w as [l o p | | | u |]; [| | | destruct u |]; cbn;
-      destruct fl, wr, hp; try destruct l; try destruct o; try destruct p; reflexivity.
+      destruct fl, wr, hp, io; try destruct l; try destruct o; try destruct p; reflexivity.
   - destruct empty, fl, wr; reflexivity.
   - destruct empty, fl, wr, io; reflexivity.
   - destruct on, fl, kd; reflexivity.
